@@ -1141,7 +1141,7 @@ def gen_eval_programs(rnd, carriers, count, exhaustive=False):
         else:
             probe = carriers[cn](Ctx(random.Random(0)))
             if probe.pairs:
-                combos.extend([(cn, 'flow%d' % i, None) for i in range(5)])
+                combos.extend([(cn, 'flow%d' % i, None) for i in range(12)])
                 continue
             for k in KINDS:
                 vs = FAULTS[k]['lit'] + (FAULTS[k]['free'] if probe.scope == 'free' else [])
@@ -1184,7 +1184,7 @@ def standin_fault_top_level(tier, seed):
     rnd = random.Random(seed * 7919 + 17)
     carriers = dict(top_carriers())
     carriers.update(flow_carriers())
-    n = 90 if tier == 'quick' else 0
+    n = 330 if tier == 'quick' else 0
     progs = gen_eval_programs(rnd, carriers, n, exhaustive=(tier != 'quick'))
     if tier != 'quick':
         progs += gen_eval_programs(rnd, carriers, 600)
@@ -1198,7 +1198,7 @@ def standin_fault_top_level(tier, seed):
 def standin_fault_called(tier, seed):
     rnd = random.Random(seed * 7919 + 29)
     carriers = called_carriers()
-    progs = gen_eval_programs(rnd, carriers, 70 if tier == 'quick' else 0, exhaustive=(tier != 'quick'))
+    progs = gen_eval_programs(rnd, carriers, 200 if tier == 'quick' else 0, exhaustive=(tier != 'quick'))
     if tier != 'quick':
         progs += gen_eval_programs(rnd, carriers, 500)
     bound = ('%d generated programs of 3..12 statements: one fault of each kind inside a definition (%s) evaluated because another statement calls / instantiates / '
